@@ -87,6 +87,71 @@ ExpectedUnpack(kind, id) ==
   LET u == Unpack(LayoutOf(kind), id) IN
   IF kind = "spec" THEN [u EXCEPT !.mjd = @ + MJDOffset] ELSE u
 
+(* ---- numeric type of the array arguments of the packing functions ---- *)
+(* "int or array of int": the element type of an array argument (any NumPy integer width,  *)
+(* signed or unsigned, one type per argument) is declared irrelevant - the outcome depends  *)
+(* on the field VALUES only.  A type is admissible for a value when the value as supplied   *)
+(* by the caller (the true MJD for mjd) is representable in it.  TLC integers are 32-bit,   *)
+(* so only the bounds that can matter for them are written down.                            *)
+IntForms == {"int64", "int32", "int16", "uint16", "uint8", "int8", "uint32", "uint64"}
+FormMax(g) == CASE g = "int8" -> 127 [] g = "uint8" -> 255 [] g = "int16" -> 32767 [] g = "uint16" -> 65535
+                [] OTHER -> 2147483647
+FormMin(g) == CASE g = "int8" -> -128 [] g = "int16" -> -32768 [] OTHER -> 0
+(* v + off is representable in g (off = what the caller adds to the stored value, >= 0).  The  *)
+(* statement's premise for mjd is "given as a true MJD > 50000": a type that cannot represent  *)
+(* the offset itself (int8, uint8, int16) cannot carry any such MJD and is left open.          *)
+FitsForm(g, v, off) == /\ (g \in {"int32", "int64"} \/ v >= FormMin(g) - off)
+                       /\ (g \in {"int64", "uint32", "uint64"} \/ v <= FormMax(g) - off)
+                       /\ FormMax(g) > off
+SuppliedOffset(kind, n) == IF kind = "spec" /\ n = "mjd" THEN MJDOffset ELSE 0
+FormsOf(kind, f) == [n \in DOMAIN f |-> {g \in IntForms : FitsForm(g, f[n], SuppliedOffset(kind, n))}]
+TypesAdmissible(kind, f, types) ==
+  \A n \in DOMAIN f : types[n] \in IntForms /\ FitsForm(types[n], f[n], SuppliedOffset(kind, n))
+ExpectedAs(c, types) == Expected(c)
+IntFormIndependent(c) ==
+  \A g, h \in IntForms : ExpectedAs(c, [n \in DOMAIN c.f |-> g]) = ExpectedAs(c, [n \in DOMAIN c.f |-> h])
+
+(* ---- representation of the identifier handed to the unpacking functions ---- *)
+(* "An array containing 64-bit integers or strings": the same identifier may arrive as a   *)
+(* native 64-bit integer, as a byte-swapped one (as read from FITS), as a decimal text      *)
+(* string or as a decimal BYTE string (a string column read from a FITS table).  The        *)
+(* representation is declared irrelevant: what is unpacked depends on the value only.       *)
+IdForms == {"int", "swapped", "ustr", "bstr"}
+ExpectedUnpackAs(kind, id, form) == ExpectedUnpack(kind, id)
+IdFormIndependent(kind, id) ==
+  \A g, h \in IdForms : ExpectedUnpackAs(kind, id, g) = ExpectedUnpackAs(kind, id, h)
+
+(* keywords of unwrap_specobjid: the low bits come back in the column "index" instead of    *)
+(* "line"; run2d comes back as the string vN_M_P instead of the integer.  Neither changes   *)
+(* any other column.                                                                        *)
+Opt(a, b) == [lineIndex |-> a, run2dString |-> b, lowcol |-> IF a THEN "index" ELSE "line"]
+UnwrapOpts == {Opt(a, b) : a, b \in BOOLEAN}
+NoOpts == {[lineIndex |-> FALSE, run2dString |-> FALSE, lowcol |-> ""]}
+OptsOf(kind) == IF kind = "spec" THEN UnwrapOpts ELSE NoOpts
+
+(* ---- arrays of arbitrary length ---- *)
+(* "scalar and array calls agree element by element": an array argument of ANY length n is  *)
+(* described by a short sequence of field tuples (base) repeated cyclically; the element at *)
+(* 0-based position p is ElemAt(base, p).  The outcome at position p is the outcome of the  *)
+(* call on that element alone - length and position are declared irrelevant - and a single  *)
+(* out-of-range element anywhere rejects the whole call.                                    *)
+ElemAt(base, p) == base[(p % Len(base)) + 1]
+ElemCall(kind, t, conv) == [kind |-> kind, f |-> t, conv |-> conv]
+ExpectedAt(kind, base, p) == Expected(ElemCall(kind, ElemAt(base, p), "array"))
+(* everything observable about one element: the identifier, its unpacked fields, the vN_M_P form *)
+ElemOutcome(kind, t) ==
+  LET e == Expected(ElemCall(kind, t, "array")) IN
+  [err |-> e.err, id |-> e.id,
+   u |-> IF e.err THEN [none |-> 0] ELSE ExpectedUnpack(kind, e.id),
+   s |-> IF e.err \/ kind # "spec" THEN <<>> ELSE StringOfRun2d(Unpack(SpecLayout, e.id).run2d)]
+(* the array of length n with the element at position p replaced by the tuple t *)
+ExpectedArrayWith(kind, base, n, p, t) ==
+  IF ~InRange(LayoutOf(kind), t) \/ \E j \in DOMAIN base : ~InRange(LayoutOf(kind), base[j])
+  THEN ValueError ELSE [err |-> FALSE, id |-> {}]
+PositionIndependent(kind, base, p) ==
+  /\ ExpectedAt(kind, base, p) = ExpectedAt(kind, base, p % Len(base))
+  /\ \A k \in {"scalar", "array1"} : Expected(ElemCall(kind, ElemAt(base, p), k)) = ExpectedAt(kind, base, p)
+
 (* ---- laws, evaluated on every enumerated call ---- *)
 RoundTrip(c) == InRange(LayoutOf(c.kind), c.f) =>
                    Unpack(LayoutOf(c.kind), Pack(LayoutOf(c.kind), c.f)) = c.f
@@ -102,4 +167,20 @@ ConvIndependent(c) == \A k \in {"array", "scalar", "array1"} :
 (* true MJD is out of the 14-bit range and the call raises.                               *)
 Dev_ArrayMjdNotReduced(c) ==
   IF c.kind = "spec" /\ c.conv \in {"array", "array1"} THEN ValueError ELSE Expected(c)
+(* D-C06-2: sdss_objid shifts every array argument in the argument's own integer type, so   *)
+(* with an argument type narrower than 64 bits the fields whose lowest bit lies at or above  *)
+(* the type's width are lost (run with 32-bit arguments, more with 16- and 8-bit ones), and  *)
+(* uint64 arguments raise TypeError.  Where it applies: in-range array calls of kind "obj"   *)
+(* with at least one argument type other than int64.                                         *)
+Dev_ObjNarrowTypeApplies(c, types) ==
+  /\ c.kind = "obj" /\ c.conv \in {"array", "array1"} /\ InRange(ObjLayout, c.f)
+  /\ \E n \in DOMAIN c.f : types[n] # "int64"
+(* D-C06-3: sdss_specobjid subtracts 50000 from an mjd ARRAY in the array's own type; in a     *)
+(* uint16 array a true MJD t <= 847 wraps to t + 15536, which is inside the 14-bit range, so   *)
+(* the call is accepted and packs a different MJD instead of raising ValueError.                *)
+Dev_Uint16MjdWraps(c, types) ==
+  IF /\ c.kind = "spec" /\ c.conv \in {"array", "array1"} /\ types.mjd = "uint16"
+     /\ c.f.mjd + MJDOffset \in 0..847 /\ InRange(SpecLayout, [c.f EXCEPT !.mjd = 0])
+  THEN [err |-> FALSE, id |-> Pack(SpecLayout, [c.f EXCEPT !.mjd = c.f.mjd + 65536])]
+  ELSE Expected(c)
 =============================================================================
